@@ -453,17 +453,20 @@ class BindStateBase:
 
         The expected event is defined by the State's sent_cmd, rcvd_msg methods.
         """
-        try:
-            await asyncio.wait_for(self._fut, timeout)
+        try:  # shield(): a time-out must not cancel the future that is to report the failure
+            await asyncio.wait_for(asyncio.shield(self._fut), timeout)
         except TimeoutError:
-            self._handle_wait_timer_expired(timeout)
-        else:
+            self._handle_wait_timer_expired(timeout)  # a no-op if the msg has just arrived
+        if self._context.state is self and self._fut.exception() is None:
             self._set_context_state(self._next_ctx_state)
         result: Message = self._fut.result()  # may raise exception
         return result
 
     def _handle_wait_timer_expired(self, timeout: float) -> None:
         """Process an overrun of the wait timer when waiting for a Message."""
+
+        if self._fut.done():  # e.g. the other timer has expired, or the msg has arrived
+            return
 
         msg = (
             f"{self._context}: Failed to transition to {self._next_ctx_state}: "
